@@ -1316,6 +1316,25 @@ pub fn generate(seed: u64, tier: Tier, p: &Profile) -> Scenario {
                     let size = probe_output_size(&g.w, &OutSpec { coin: 1 << 20, ..main.clone() });
                     main.coin = g.k.cpb * (160 + size);
                 }
+                {
+                    // adaptive (own stream, so that all other sessions stay as they were): max_value_size is lowered to
+                    // the very size of the value of an explicit return that holds exactly the assets of the collateral
+                    // inputs (accepted), or to one byte less (refused for its size alone - every other guard passes, so a
+                    // refusal that leaves a trace shows)
+                    let mut r7 = Rng::stream(seed, 7);
+                    if !cassets.is_empty() && r7.chance(1, 5) {
+                        let mut ra: BTreeMap<(u16, Vec<u8>), u64> = BTreeMap::new();
+                        for a in &cassets {
+                            *ra.entry((a.p, a.n.clone())).or_insert(0) += a.q;
+                        }
+                        main.assets = ra.into_iter().map(|((p, n), q)| AssetQ { p, n, q }).collect();
+                        main.coin = (total / 2).max(g.min_ada(extra + 100));
+                        let vs = g.w.value(main.coin, &main.assets).to_bytes().len() as u32;
+                        if vs >= 2 && vs <= g.k.max_value_size {
+                            g.k.max_value_size = vs - r7.below(2) as u32;
+                        }
+                    }
+                }
                 if g.r.chance(1, 6) {
                     // the plain (unchecked) setter first, then the checked call with the very same output: it has to be measured all the same
                     coll_ops.push(Op::CollReturn(main.clone()));
